@@ -129,7 +129,8 @@ func (c *Ctx) fillResponse(g *Gen, ri *respImpl, rawBody *string) reflect.Value 
 		}
 		switch {
 		case sf.Name == "Code" && f.Kind() == reflect.Int:
-			f.SetInt(int64([]int{400, 401, 418, 500, 503, 299, 302, 599}[g.Rng.Intn(8)]))
+			// any final status that may carry a body (1xx, 204 and 304 cannot)
+			f.SetInt(int64([]int{400, 401, 418, 500, 503, 299, 302, 599, 205, 203, 207, 226, 300, 308, 422, 451, 511, 600, 999}[g.Rng.Intn(19)]))
 		case sf.Name == "Body":
 			if f.Type() == readerType || f.Type() == readCloserType {
 				s := g.str() + g.str()
@@ -323,6 +324,12 @@ func modeResp(c *Ctx) {
 						resetReaders(v2, raw)
 					}
 					w2 := newRec()
+					if i%16 == 0 && ri.Doc.ContentType != "" {
+						// a writer on which an outer layer already put a default
+						// Content-Type: the documented one must still go out
+						w2.hdr.Set("Content-Type", "text/html; charset=stale")
+						c.Stat("writes_over_stale_content_type", 1)
+					}
 					if err := callWrite(v2, ri, w2, w.Status); err != nil {
 						c.Stat("no_public_write", 1)
 					} else if w2.Status != w.Status || !sameHeader(w2.Frozen, w.Frozen) || !jsonOrBytesEqual(w2.Body.Bytes(), w.Body.Bytes()) {
@@ -697,7 +704,13 @@ func modeClient(c *Ctx) {
 		gp := &Gen{Rng: c.Rng, Doc: c.Doc}
 		for i := 0; i < nvals; i++ {
 			var rawBody string
+			gp.HugeBody = i == 1 && op.Spec.Body != nil && op.Spec.Body.JSON
 			params := c.genParams(gp, op, &rawBody)
+			if gp.HugeBody {
+				gp.HugeBody = false
+			} else if i == 1 && op.Spec.Body != nil && op.Spec.Body.JSON {
+				c.Stat("huge_json_bodies", 1)
+			}
 			e.next = reflect.Value{}
 			e.ran = false
 			t.stub = nil
@@ -937,7 +950,12 @@ func (c *Ctx) genParams(g *Gen, op *Op, rawBody *string) reflect.Value {
 				if op.Spec.Body != nil {
 					s = op.Spec.Body.Schema
 				}
+				if g.HugeBody {
+					g.HugeBody = false
+					g.HugeNext = true
+				}
 				g.fill(f, s, 0)
+				g.HugeNext = false
 				if isWrapper(f.Type()) && op.Spec.Body != nil && op.Spec.Body.Required {
 					// nothing: a required body that is a wrapper is a nullable schema
 					_ = s
